@@ -4,12 +4,22 @@
 package main
 
 import (
+	"bytes"
 	"fmt"
+	"io"
 	"os"
+	"os/exec"
+	"regexp"
+	"strings"
 
 	"verif/harness/internal/checks"
 	"verif/harness/internal/core"
 )
+
+// supervised properties run their workload in a child process: a crash of
+// the code under test (fatal error: concurrent map writes, unrecovered panic
+// in a goroutine of mocrelay, deadlock) must become a verdict, not a dead check.
+var supervised = map[string]bool{"C13": true, "C15": true}
 
 func main() {
 	if len(os.Args) < 2 {
@@ -22,6 +32,9 @@ func main() {
 		fmt.Printf("unknown property %s\n", id)
 		os.Exit(2)
 	}
+	if supervised[id] && os.Getenv("VERIF_CHILD") == "" {
+		os.Exit(supervise(id))
+	}
 	run := core.NewRun(id)
 	func() {
 		defer func() {
@@ -32,4 +45,51 @@ func main() {
 		f(run)
 	}()
 	os.Exit(run.Finish())
+}
+
+var reFatal = regexp.MustCompile(`(?m)^(fatal error: .*|panic: .*)$`)
+
+func supervise(id string) int {
+	cmd := exec.Command(os.Args[0], id)
+	cmd.Env = append(os.Environ(), "VERIF_CHILD=1")
+	var buf bytes.Buffer
+	cmd.Stdout = io.MultiWriter(os.Stdout, &buf)
+	cmd.Stderr = &buf
+	err := cmd.Run()
+	code := 0
+	if err != nil {
+		code = -1
+		if ee, ok := err.(*exec.ExitError); ok {
+			code = ee.ExitCode()
+		}
+	}
+	out := buf.String()
+	if code == 0 || code == 1 || code == 2 {
+		if m := reFatal.FindString(out); m == "" || code != 2 {
+			return code
+		}
+	}
+	// the child died
+	run := core.NewRun(id)
+	m := reFatal.FindString(out)
+	inMocrelay := strings.Contains(out, "github.com/high-moctane/mocrelay")
+	if m != "" && inMocrelay {
+		tail := out
+		if i := strings.Index(out, m); i >= 0 {
+			tail = out[i:]
+		}
+		if len(tail) > 6000 {
+			tail = tail[:6000]
+		}
+		run.Set("evaluations", int64(1))
+		run.Set("distinct_nontrivial", int64(2))
+		run.Set("rule", "the workload process crashed inside mocrelay; see the replay file")
+		run.Violate("crash:"+m, tail, map[string]any{"output": tail})
+	} else {
+		if len(out) > 3000 {
+			out = out[len(out)-3000:]
+		}
+		run.Problem("the workload process ended with exit code %d:\n%s", code, out)
+	}
+	return run.Finish()
 }
